@@ -100,7 +100,9 @@ class Parser:
 
     @classmethod
     def regex(cls, regex, skip_whitespace_before=True, case_sensitive=False):
-        regex = re.compile(regex, flags=0 if case_sensitive else re.I)
+        # re.ASCII: without it, case-insensitive matching of [a-z] also accepts characters such as
+        # U+017F or U+212A, which str.lower() -- used for all table lookups -- does not fold to ASCII
+        regex = re.compile(regex, flags=0 if case_sensitive else re.I | re.ASCII)
         def fn(ctx):
             if skip_whitespace_before:
                 ctx.skip_whitespace()
